@@ -4,7 +4,45 @@
 #   level_text  what the check decides; level_note: what is assumed / trusted
 NOT_APPLICABLE = {}
 
+_TRUST = ("Trusted: go/ssa lowering, the gosym interpreter, z3; stubs listed in the evidence (logger = no effect, "
+          "highwayhash = injective function, context = model, encoding/json = value-preserving blob, timers fire only at quiescence). "
+          "Bounds as stated in the evidence; behaviour beyond them is not claimed.")
+
 CHECKS = {
+    "C06": {
+        "pkgs": ["./pkg/netceptor"],
+        "bounds": "one update (and one re-delivery) from an arbitrary node state over the universe {A=self,B,C,D}; epochs, sequences, "
+                  "costs arbitrary 64-bit/real values; 7 edges with symbolic presence; update lists <= 3 neighbours",
+        "assumptions": ["update IDs are unique per update (8 random characters)", "float costs encoded as reals"],
+        "outside": ["global termination of flooding (follows per node from the step lemmas; not solver-checked)", "loss of update-id uniqueness"],
+        "level_text": "Inductive step by bounded symbolic execution of the real handleRoutingUpdate/flood code from an arbitrary "
+                      "symbolic pre-state: replay/stale updates change nothing and are not relayed, accepted ones install exactly the "
+                      "update and are relayed once, never back; self-origin handling (duplicate detection) is decided too.",
+        "level_note": _TRUST,
+    },
+    "C07": {
+        "pkgs": ["./pkg/netceptor", "./pkg/backends", "./pkg/framer"],
+        "bounds": "one arbitrary datagram before the handshake, and one after a correct handshake, drawn from: raw bytes 0..2, data packet with "
+                  "arbitrary 36-byte header, routing update / service advertisement with every field arbitrary (strings <= 1 byte, maps <= 2 "
+                  "entries, embedded record nil or present), reject; routing-table computation over 3 nodes with arbitrary real costs, unwind 12",
+        "assumptions": ["JSON bodies that fail to decode are represented by the decode-error path"],
+        "outside": ["memory exhaustion by large frames", "scheduling between several sessions", "kernel / websocket library"],
+        "level_text": "Bounded symbolic execution of the real runProtocol loop (with its reader/writer/initial-message goroutines as engine "
+                      "threads) on every datagram of the stated classes: no panic, no unbounded recursion, no deadlock, no lock left held, "
+                      "the session ends cleanly; routing-table computation terminates within the unwinding bound.",
+        "level_note": _TRUST,
+    },
+    "C10": {
+        "pkgs": ["./pkg/netceptor"],
+        "bounds": "step lemma for all 256 budgets, arbitrary routing table (no route / via B / via C / via unconnected X) for source and "
+                  "destination, payload <= 1 byte (quick) / 2 bytes and all service-name lengths (thorough); 2-node routing loop with budget <= 3; "
+                  "traceroute script of 4 probes",
+        "assumptions": [],
+        "outside": ["the induction over hops is by the step lemma (composition checked concretely only for the 2-node loop)"],
+        "level_text": "Bounded symbolic execution of forwardMessage/handleMessageData/sendUnreachable and CreateTraceroute: relay only with "
+                      "budget>0, budget decremented by exactly one, nothing else changes, expiry notice names the original addresses.",
+        "level_note": _TRUST,
+    },
     "C02": {
         "pkgs": ["./pkg/framer", "./pkg/netceptor", "./pkg/backends"],
         "bounds": {
